@@ -3,6 +3,7 @@ import json
 
 from .. import core
 from .. import pairing as P
+from .. import tpir
 from ..core import run_section
 
 MODULE = 'KdVerif.Props.C04'
@@ -24,7 +25,8 @@ TRUSTED = ['Model/Pairing.step is a hand model of TracesParser.feed/_feed_start_
            'lists, KeyError/IndexError, Python evaluation order; paths instead of object references, never stored in '
            'a local) — the section `pairing-ir` tests exactly these two against CPython',
            'the handler call itself is abstract here (a handler may still return None for a continuation '
-           'fragment: C08)']
+           'fragment: C08)',
+           'the generator wrapper and the constructor are no longer hand-modelled: ' + tpir.TRUSTED]
 ASSUMPTIONS = ['event.func_qualifier is debugid & 3 (C01), so the qualifiers_actions lookup cannot raise KeyError; '
                'the model treats every qualifier other than 1 and 2 like NONE/ALL',
                'handlers do not touch on_going_events / on_going_traces and do not mutate the list they are given '
@@ -204,16 +206,19 @@ SECTIONS = {
 
 
 def translation_tie(rep):
-    """Is the IR translated from traces_parser.py the program the refinement theorems are about?  Returns whether the
-    generated program can be run (no `.unsupported` node)."""
-    ans = core.drive(['pyircheck'])[0]
+    """Is the IR translated from traces_parser.py the program the refinement theorems are about?  Returns which of the
+    generated terms can be run (no `.unsupported` node): (the five methods, feed_generator, __init__)."""
+    ans, parts = tpir.check_parts()
     if ans == 'same':
-        rep.notes.append('translation tie: Gen/PyIR (from traces_parser.py) = Spec/PyIRExpected')
-        return True
+        rep.notes.append('translation tie: Gen/PyIR (from traces_parser.py) = Spec/PyIRExpected + Spec/PyIRTpExpected '
+                         '(five methods, qualifiers_actions, feed_generator, __init__)')
+        return True, True, True
     rep.broken.append('theorem source_is_expected_ir: the IR that tools/gen_pyir.py translates from the source text of '
-                      'traces_parser.py is not the program of Spec/PyIRExpected that expected_ir_refines_model / '
-                      'run_ir_eq_run_model are proved for (%s)' % ans)
-    return 'unsupported' not in ans
+                      'traces_parser.py is not the program of Spec/PyIRExpected / Spec/PyIRTpExpected that '
+                      'expected_ir_refines_model / run_ir_eq_run_model / feed_generator_ir_eq_model / init_ir_eq_model are '
+                      'proved for (%s)' % ans)
+    probe = core.drive(['pyir -', 'pyirgen - - 0', 'pyirinit 3'])
+    return tuple(p != 'unsupported' for p in probe)
 
 
 RULE_NAMES = ('every name N of: the registered handler names, every string literal of the package source that is or looks like '
@@ -301,9 +306,10 @@ def correspondence(rep, rng, tier):
     if hits:
         rep.broken.append('assumption: code outside traces_parser.py references the window tables (%s); the model\'s decoders '
                           'cannot' % '; '.join(hits[:4]))
-    runnable = translation_tie(rep)
+    runnable, runnable_gen, runnable_init = translation_tie(rep)
     if not runnable:
         rep.notes.append('section pairing-ir skipped: the translation contains .unsupported nodes')
+    tpir.init_section(rep, runnable_init)
     kind = lambda c, got: c['style']  # noqa: E731
     nontriv = lambda c, got: got.startswith('ok') and P.has_multi_window(got)  # noqa: E731
     chunks = [(6000, 40)] if tier == 'quick' else [(10000, 40)] * 9 + [(3000, 120)]
@@ -335,6 +341,7 @@ def correspondence(rep, rng, tier):
                              'the interpreter of Model/PyIR (`pyir`: per event the list handed to parse_event_list and '
                              'whether a handler result came back) against the real TracesParser with recording stub '
                              'handlers — tests the translator and the interpreter, not the hand model')
+        tpir.feed_generator_section(rep, sub, runnable_gen)
         first = False
     names = pool['all']
     for i in range(0, len(names), 400):             # chunked like `pairing`
@@ -346,6 +353,8 @@ def correspondence(rep, rng, tier):
     P.shrink_failures(rep, 'pairing-long', impl_stub, P.oracle_per_event, lambda c: P.line('pairg', c)[:4000], expand=expand)
     P.shrink_failures(rep, 'pairing', impl_stub, P.oracle_per_event, lambda c: P.line('pairg', c))
     P.shrink_failures(rep, 'pairing-pregate', impl_pregate, oracle_pregate, lambda c: P.line('pair', c))
+    P.shrink_failures(rep, 'feed-generator-ir', tpir.impl_gen, tpir.oracle_gen, tpir.line_gen, seconds=15.0,
+                      expand=tpir.freeze)
     value_equal_section(rep, rng, tier)
     codes = P.real_alphabet()
     m = 1500 if tier == 'quick' else 20000
@@ -369,6 +378,26 @@ def replay(path):
         print('nothing to replay (no failing input was recorded):', r.get('no_longer_checks'))
         return 1
     case, sec = rp['case'], rp.get('section', 'pairing')
+    if sec in ('feed-generator-ir', 'init-ir'):
+        if sec == 'init-ir':
+            got = tpir._safe(tpir.impl_init, case)
+            print('impl :', got)
+            try:
+                print('model:', core.drive(['pyirinit %d' % case.get('nargs', 3)])[0])
+            except core.Infra as e:
+                print('model: <driver unavailable: %s>' % e)
+            res = tpir.oracle_init(case, got)
+        else:
+            print('codes (id name decodable):', case['codes'])
+            for e in case['events'][:80]:
+                print('   %d tid=%d code=%#x q=%d' % (e[0], e[1], e[2], e[3]))
+            res = tpir.replay_gen(case)
+        if res:
+            print('oracle:', res[0], '-', res[1])
+            print(f'VIOLATION property=C04 replay={path}')
+            return 1
+        print('oracle: property holds on this input')
+        return 0
     if sec == 'pairing-value-equal':
         class _R:                                    # re-run the one case through the section itself
             def __init__(self):
@@ -437,10 +466,21 @@ LEVEL_TEXT = ('Lean theorems for ALL histories: the pairing state machine (model
               'abstracts to Pairing.step, calls parse_event_list with exactly the emitted list and returns the gated '
               'result, and keeps the heap well-formed; run_ir_eq_run_model: for every history from the empty tables '
               'the generated program yields Pairing.outputs / run / stateAfter; parse_event_list_ir_eq_gate: '
-              'parse_event_list is Pairing.gate (IndexError on []).  Model and generated IR are also run '
-              'differentially against the real TracesParser.')
+              'parse_event_list is Pairing.gate (IndexError on []).  The tie now covers the WHOLE class but its handlers: '
+              'feed_generator (feed_generator_ir_eq_model: for every event list, every exception the event generator ends with '
+              'and every heap, the interpreted `for event in generator: ret = self.feed(event); if ret is not None: yield ret` '
+              'IS Pipeline.feedGen over the interpreted feed — same traces in order, an exception of feed ends the stream after '
+              'the traces already delivered, same final state; feed_generator_ir_eq_pairing_model: from a fresh parser it yields '
+              'the non-None answers of Pairing.outputs through the gate) and __init__ (init_ir_eq_model: all ten attributes '
+              'bound, trace_codes / threads_pids / pids_names ARE the caller\'s arguments — shared, not copied —, the two window '
+              'tables are two different new empty dicts = PyIR.World.empty = Pairing.PState.empty, seven pairwise different new '
+              'dicts in all, whole-parser state { pairing := empty, tabs := the caller\'s two tables, the other four empty }; '
+              'init_state_is_model_start: that is TracePipeline.startState; the handler registry: C17 registry_ir_eq_model).  '
+              'Model and generated IR are also run differentially against the real TracesParser (sections pairing-ir, '
+              'feed-generator-ir, init-ir).')
 LEVEL_NOTE = ('Trusted: Lean kernel; the translator tools/gen_pyir.py and the interpreter Model/PyIR as the semantics of '
-              'the Python subset (both tested against CPython by the section pairing-ir); the hand model of feed '
+              'the Python subset, with Model/PyIRTp for the generator wrapper and the constructor (all tested against CPython '
+              'by the sections pairing-ir, feed-generator-ir, init-ir); the hand model of feed '
               '(Model/Pairing) is no longer trusted by itself — it is proved equal to the interpreted source; the '
               'handler call after the gate is abstract (continuation fragments swallowed by handlers: C08).')
 TECHNIQUE = ('Lean 4 refinement proofs (interpreted source IR vs. state machine vs. declarative spec) + translation '
